@@ -336,43 +336,14 @@ func (c *Ctx) PaletteReadResets() []core.Ob {
 		if !ok || !call.Common().IsInvoke() || call.Common().Method.Name() != "ReadFrom" {
 			continue
 		}
-		// the decoded object: a field of the receiver, possibly handed through a helper or closure parameter
-		val, fr := nd.frame.resolve(call.Common().Value)
-		for {
-			switch x := val.(type) {
-			case *ssa.MakeInterface:
-				val = x.X
-				continue
-			case *ssa.ChangeInterface:
-				val = x.X
-				continue
-			}
-			break
+		// the decoded object: a field of the receiver, possibly handed through a helper or closure parameter,
+		// or one of the entries of a small literal list the method loops over
+		cands := []ssa.Value{call.Common().Value}
+		if elems := localArrayElems(call.Common().Value); len(elems) > 0 {
+			cands = elems
 		}
-		ld, ok := val.(*ssa.UnOp)
-		if !ok || ld.Op != token.MUL || fr == nil {
-			continue
-		}
-		f := v.fieldInFrame(fr, ld.X)
-		if f == "" || strings.Contains(f, ".") {
-			continue
-		}
-		if _, isIface := ld.Type().Underlying().(*types.Interface); !isIface {
-			continue // (the packed data is a concrete object that is re-filled in place)
-		}
-		n++
-		fresh := false
-		var stores []int
-		for _, m := range v.nodes {
-			st, ok := m.in.(*ssa.Store)
-			if !ok || v.recvField(m, st.Addr) != f {
-				continue
-			}
-			stores = append(stores, m.id)
-			if !v.dominates(m.id, nd.id) && v.reachAvoidingErrAware(v.entry, nd.id, []int{m.id}) {
-				continue
-			}
-			val := st.Val
+		for _, cand := range cands {
+			val, fr := nd.frame.resolve(cand)
 			for {
 				switch x := val.(type) {
 				case *ssa.MakeInterface:
@@ -384,14 +355,50 @@ func (c *Ctx) PaletteReadResets() []core.Ob {
 				}
 				break
 			}
-			switch val.(type) {
-			case *ssa.Call, *ssa.Alloc:
-				fresh = true
+			ld, ok := val.(*ssa.UnOp)
+			if !ok || ld.Op != token.MUL || fr == nil {
+				continue
 			}
-		}
-		if !fresh {
-			o.Status = core.Violated
-			o.Got = fmt.Sprintf("the decode into field %s at %s is not preceded on every path by an assignment of a newly created value to that field: entries of an earlier decode survive", f, c.P.Pos(call.Pos()))
+			f := v.fieldInFrame(fr, ld.X)
+			if f == "" || strings.Contains(f, ".") {
+				continue
+			}
+			if _, isIface := ld.Type().Underlying().(*types.Interface); !isIface {
+				continue // (the packed data is a concrete object that is re-filled in place)
+			}
+			n++
+			fresh := false
+			var stores []int
+			for _, m := range v.nodes {
+				st, ok := m.in.(*ssa.Store)
+				if !ok || v.recvField(m, st.Addr) != f {
+					continue
+				}
+				stores = append(stores, m.id)
+				if !v.dominates(m.id, nd.id) && v.reachAvoidingErrAware(v.entry, nd.id, []int{m.id}) {
+					continue
+				}
+				val := st.Val
+				for {
+					switch x := val.(type) {
+					case *ssa.MakeInterface:
+						val = x.X
+						continue
+					case *ssa.ChangeInterface:
+						val = x.X
+						continue
+					}
+					break
+				}
+				switch val.(type) {
+				case *ssa.Call, *ssa.Alloc:
+					fresh = true
+				}
+			}
+			if !fresh {
+				o.Status = core.Violated
+				o.Got = fmt.Sprintf("the decode into field %s at %s is not preceded on every path by an assignment of a newly created value to that field: entries of an earlier decode survive", f, c.P.Pos(call.Pos()))
+			}
 		}
 	}
 	if n == 0 {
@@ -944,7 +951,7 @@ func (c *Ctx) UnpackAssigns() []core.Ob {
 		return []core.Ob{o}
 	}
 	o.Pos, o.Func = c.P.Pos(fn.Pos()), core.FnName(fn)
-	v := c.inlineView(fn, 2)
+	v := c.inlineView(fn, 4)
 	st, _ := deref(fn.Params[0].Type()).Underlying().(*types.Struct)
 	if st == nil {
 		o.Status, o.Got = core.Violated, "receiver is not a struct"
@@ -1822,6 +1829,20 @@ func errKnownNonNil(e ssa.Value, b *ssa.BasicBlock) bool {
 // directlyReturnedCall: `return f(...)`: the call whose results are exactly what the return hands back (nil otherwise).
 func directlyReturnedCall(ret *ssa.Return) ssa.Value {
 	if len(ret.Results) == 1 {
+		// a function with a defer spills its result: `*slot = f(..); rundefers; return *slot`
+		if ld, ok := ret.Results[0].(*ssa.UnOp); ok && ld.Op == token.MUL {
+			if al, ok := ld.X.(*ssa.Alloc); ok {
+				var last ssa.Value
+				for _, in := range ret.Block().Instrs {
+					if st, ok := in.(*ssa.Store); ok && st.Addr == ssa.Value(al) {
+						last = st.Val
+					}
+				}
+				if cl, ok := last.(*ssa.Call); ok && cl.Block() == ret.Block() {
+					return cl
+				}
+			}
+		}
 		// (not `err := f(); if err != nil { return err }`: there the call is in an earlier block)
 		if cl, ok := ret.Results[0].(*ssa.Call); ok && cl.Block() == ret.Block() {
 			return cl
@@ -3018,7 +3039,7 @@ func (c *Ctx) RegionSlotOffsets() []core.Ob {
 	}
 	sizes := c.TLG().sizesOf(sh)
 	for _, pr := range [][2]int64{{0, 0}, {1, 0}, {0, 1}, {5, 7}, {31, 31}} {
-		ev := &skelEval{c: c, sizes: sizes}
+		ev := &skelEval{c: c, sizes: sizes, deep: true}
 		got := map[string]bool{}
 		ev.onInstr = func(in ssa.Instruction, get func(ssa.Value) *big.Int) {
 			ci, ok := in.(ssa.CallInstruction)
@@ -3026,8 +3047,12 @@ func (c *Ctx) RegionSlotOffsets() []core.Ob {
 				return
 			}
 			nm := calleeName(ci.Common())
-			if !(strings.HasSuffix(nm, "riteAt") || strings.HasSuffix(nm, ".Seek")) {
-				return
+			// the positioned write itself: WriterAt.WriteAt / Seek of the standard library
+			if !(strings.HasSuffix(nm, ".WriteAt") || strings.HasSuffix(nm, ".Seek")) || !ci.Common().IsInvoke() {
+				// ... or the module's own positioned-write helper, when its body cannot be followed
+				if g := ci.Common().StaticCallee(); g == nil || !c.P.InModule(g) || !positionedWriter(g) {
+					return
+				}
 			}
 			for _, a := range ci.Common().Args {
 				if bt, ok := a.Type().Underlying().(*types.Basic); ok && bt.Kind() == types.Int64 {
@@ -3864,6 +3889,10 @@ func (c *Ctx) LengthPrefixes(pkgs ...string) []core.Ob {
 		if len(prefixes) != 1 || len(payloads) != 1 {
 			continue
 		}
+		// the payload is the value being encoded (the receiver or a parameter), not an assembled buffer
+		if _, isParam := payloads[0].(*ssa.Parameter); !isParam {
+			continue
+		}
 		o := core.Ob{Rule: "R-LENPREFIX", Key: core.FnName(fn), Pos: c.P.Pos(prefixPos), Func: core.FnName(fn), Armed: true, Status: core.OK,
 			Want: "the VarInt written before the raw payload is len() of that payload (its byte length)"}
 		pv := payloadOrigin(prefixes[0], 0)
@@ -4292,6 +4321,8 @@ func (v *iview) reachAvoidingErrAware(a, b int, avoid []int) bool {
 		node int
 		call ssa.CallInstruction // pending: the call whose error is known ...
 		nz   bool                // ... to be non-nil (true) / nil (false)
+		phi  *ssa.Phi            // a boolean flag variable whose value on this path is known ...
+		pv   bool                // ... to be this constant
 	}
 	seen := map[state]bool{}
 	work := []state{{node: a}}
@@ -4324,6 +4355,21 @@ func (v *iview) reachAvoidingErrAware(a, b int, avoid []int) bool {
 			}
 		}
 		succs := nd.succs
+		// a flag set on the way (ok := false; if cond { ok = ... }; if !ok { return }): the path that
+		// carried the constant into the phi takes the matching side of a later test of the flag
+		if iff, ok := nd.in.(*ssa.If); ok && s.phi != nil && len(nd.succs) == 2 {
+			cond, neg := iff.Cond, false
+			if u, ok := cond.(*ssa.UnOp); ok && u.Op == token.NOT {
+				cond, neg = u.X, true
+			}
+			if cond == ssa.Value(s.phi) {
+				if s.pv != neg {
+					succs = nd.succs[:1]
+				} else {
+					succs = nd.succs[1:]
+				}
+			}
+		}
 		if iff, ok := nd.in.(*ssa.If); ok && s.call != nil && len(nd.succs) == 2 {
 			// `if pred(..)` / `if !pred(..)`
 			cond, neg := iff.Cond, false
@@ -4361,9 +4407,31 @@ func (v *iview) reachAvoidingErrAware(a, b int, avoid []int) bool {
 			}
 		}
 		for _, x := range succs {
-			if !blocked[x] {
-				work = append(work, state{node: x, call: next.call, nz: next.nz})
+			if blocked[x] {
+				continue
 			}
+			ns := state{node: x, call: next.call, nz: next.nz, phi: s.phi, pv: s.pv}
+			// entering a block over one of its predecessor edges: boolean phis with a constant on that edge
+			xn := v.nodes[x]
+			if xb := xn.in.Block(); xb != nil && xn.frame == nd.frame && nd.in.Block() != xb && len(xb.Instrs) > 0 && xb.Instrs[0] == xn.in {
+				for i, pb := range xb.Preds {
+					if pb != nd.in.Block() {
+						continue
+					}
+					for _, pin := range xb.Instrs {
+						phi, isPhi := pin.(*ssa.Phi)
+						if !isPhi {
+							break
+						}
+						if kc, isK := phi.Edges[i].(*ssa.Const); isK && kc.Value != nil && kc.Value.Kind() == constant.Bool {
+							ns.phi, ns.pv = phi, constant.BoolVal(kc.Value)
+						} else if ns.phi == phi {
+							ns.phi = nil
+						}
+					}
+				}
+			}
+			work = append(work, ns)
 		}
 	}
 	return false
@@ -4441,4 +4509,28 @@ func (c *Ctx) FixedBitSetSize() []core.Ob {
 		}
 	}
 	return []core.Ob{o}
+}
+
+// positionedWriter: a function of the module that hands one of its int64 parameters to
+// WriterAt.WriteAt or Seek (the file-position helper of the region file).
+func positionedWriter(g *ssa.Function) bool {
+	for _, b := range g.Blocks {
+		for _, in := range b.Instrs {
+			ci, ok := in.(ssa.CallInstruction)
+			if !ok || !ci.Common().IsInvoke() {
+				continue
+			}
+			if m := ci.Common().Method.Name(); m != "WriteAt" && m != "Seek" {
+				continue
+			}
+			for _, a := range ci.Common().Args {
+				if p, ok := a.(*ssa.Parameter); ok {
+					if bt, ok := p.Type().Underlying().(*types.Basic); ok && bt.Kind() == types.Int64 {
+						return true
+					}
+				}
+			}
+		}
+	}
+	return false
 }
